@@ -26,4 +26,5 @@ let () =
   register "vstack_imp" (function [old; s; out] -> (opt tok_cards (import_vstack (cards_of_tok old) (bytes_of_tok s)), out) | _ -> failwith "arity");
   register "vss_exp" (function [ps; out] -> (tok_of_bytes (export_vstacksecret (pairs_of_tok ps)), out) | _ -> failwith "arity");
   register "vss_imp" (function [old; s; out] -> (opt tok_pairs (import_vstacksecret (pairs_of_tok old) (bytes_of_tok s)), out) | _ -> failwith "arity");
+  register "streammax" (fun _ -> ("impl-only", "impl-only"));
   main ()
